@@ -7,6 +7,7 @@ import (
 	"github.com/resonatehq/resonate/internal/kernel/t_aio"
 	"github.com/resonatehq/resonate/internal/vx"
 	"github.com/resonatehq/resonate/pkg/promise"
+	"github.com/resonatehq/resonate/pkg/receiver"
 )
 
 func VH_RT_Tag() {
@@ -41,6 +42,9 @@ func VH_RT_Tag() {
 		got, _ := vx.Unmarshalled(r.Recv).(any)
 		_ = got
 		vx.Assert(!vx.BytesNil(r.Recv), "C19:json-receiver-kept-as-physical")
+		// "addressed exactly as its routing tag says": an object carrying members a receiver does not have is
+		// not a receiver object, and routing it would silently drop those members from the address
+		vx.Assert(!vx.JsonUnknownFields(v, (*receiver.Recv)(nil)), "C19:json-with-foreign-members-does-not-route")
 	} else {
 		vx.Reach("json-not-a-receiver")
 	}
